@@ -59,7 +59,11 @@ fn assemble_tr(body: &str) -> Option<Descriptor<DescriptorPublicKey>> {
             }
             None
         } else {
-            let ms = miniscript::Miniscript::<DescriptorPublicKey, miniscript::Tap>::from_str_insane(s).ok()?;
+            // (leaves that are not even of type B are handed to the constructors too: it is for
+            // them to refuse)
+            let ms = miniscript::Miniscript::<DescriptorPublicKey, miniscript::Tap>::from_str_insane(s)
+                .or_else(|_| miniscript::Miniscript::<DescriptorPublicKey, miniscript::Tap>::from_str_with_validation_params(s, &miniscript::ValidationParams::MAX))
+                .ok()?;
             Some(TapTree::leaf(ms))
         }
     }
